@@ -13,6 +13,9 @@ for sid in ids:
     mp=f'{V}/seeded/{sid}/meta.json'
     m=json.load(open(mp))
     props=[m['property']]+m.get('also_check',[])
+    if m.get('obsolete_on_current_tree'):
+        rows.append((sid,m['property'],'OBSOLETE on the repaired tree',m['obsolete_on_current_tree'][:160]))
+        continue
     r=subprocess.run(['git','-C','/repo','apply',f'{V}/seeded/{sid}/patch.diff'],capture_output=True,text=True)
     if r.returncode!=0:
         rows.append((sid,m['property'],'patch does not apply to current /repo',''))
